@@ -29,7 +29,7 @@ func c18Dispatch(c *Ctx) {
 		withTrace = true
 		c.Class("router_made_by_group_with_trace_option")
 	}
-	var use []string
+	use := append([]string(nil), s.UseNames...)
 	pool := gen.Hostile.Table(r, r.Range(4, 16))
 	for i := r.Range(4, 20); i > 0; i-- {
 		switch x := r.Intn(10); {
@@ -191,6 +191,13 @@ func c18Helper(c *Ctx) {
 		}()
 		rw.Finish()
 		c.Eval()
+		// the response belongs to its recipient now, who edits every header value in place (a logging wrapper that truncates
+		// what it prints, say): later TRACE answers must be unaffected
+		for _, vs := range rw.Header() {
+			for i := range vs {
+				vs[i] = "edited-in-place"
+			}
+		}
 		dump, err := httputil.DumpRequest(spec.build(), withBody)
 		want := html.EscapeString(string(dump))
 		det := map[string]any{"request": spec, "with_body": withBody, "status": rw.Status, "headers_sent": rw.Snap, "body": short(rw.Body.String()), "expected_body": short(want)}
